@@ -31,6 +31,9 @@ func (in *Interp) doCall(fr *Frame, c *ssa.CallCommon, fv Value, args []Value) V
 		if iv.t == nil {
 			in.abort("panic", "nil interface method call in "+fr.fn.String())
 		}
+		if in.prog.MethodSets.MethodSet(iv.t).Lookup(c.Method.Pkg(), c.Method.Name()) == nil {
+			in.abort("unsupported", "no method "+c.Method.Name()+" on "+iv.t.String())
+		}
 		m := in.prog.LookupMethod(iv.t, c.Method.Pkg(), c.Method.Name())
 		if m == nil {
 			in.abort("unsupported", "method lookup "+c.Method.Name()+" on "+iv.t.String())
@@ -58,6 +61,9 @@ func (in *Interp) builtin(fr *Frame, b *ssa.Builtin, c *ssa.CallCommon, args []V
 	case "len":
 		switch x := args[0].(type) {
 		case SliceV:
+			if x.symLen != nil {
+				return x.symLen
+			}
 			return BVi(64, int64(x.n))
 		case StrV:
 			return BVi(64, int64(len(x.b)))
@@ -259,6 +265,20 @@ func (in *Interp) installIntrinsics() {
 		}
 		return SliceV{arr: arr, n: n, cp: n}
 	}
+	I["nondetOpaqueBytes"] = func(in *Interp, args []Value) Value {
+		mx := args[0].(*Term).Int()
+		t := in.newNondet(64, "len")
+		if in.conc != nil {
+			n := int(t.Uint() % uint64(mx+1))
+			arr := make([]*Loc, n)
+			for i := range arr {
+				arr[i] = &Loc{v: BVu(8, 0)}
+			}
+			return SliceV{arr: arr, n: n, cp: n}
+		}
+		in.addPC(CmpBV("bvule", t, BVi(64, mx)))
+		return SliceV{symLen: t}
+	}
 	I["nondetString"] = func(in *Interp, args []Value) Value {
 		n := int(args[0].(*Term).Int())
 		b := make([]*Term, n)
@@ -378,12 +398,52 @@ func (in *Interp) installStubs() {
 	in.installConcStubs()
 	in.installCtxStubs()
 	in.installLibStubs()
-	opaqueErr := func(in *Interp, fn *ssa.Function, args []Value) Value {
-		in.nfresh++
-		return IfaceV{t: types.Typ[types.String], v: OpaqueV{tag: "error", id: in.nfresh}}
+	// errors: errors.New runs from its own SSA (it is &errorString{text}); fmt.Errorf builds a
+	// *fmt.wrapError (when %w wraps an error) or *errors.errorString with an opaque message.
+	in.stubs["fmt.Errorf"] = func(in *Interp, fn *ssa.Function, args []Value) Value {
+		format, _ := args[0].(StrV).concrete()
+		va := args[1].(SliceV)
+		var wrapped Value
+		if strings.Contains(format, "%w") {
+			for i := 0; i < va.n; i++ {
+				if iv, ok := va.arr[va.off+i].get().(IfaceV); ok && iv.t != nil && types.Implements(iv.t, errT().Underlying().(*types.Interface)) {
+					wrapped = iv
+				}
+			}
+		}
+		msg := strConst("<formatted error>")
+		if wrapped != nil {
+			if p := in.prog.ImportedPackage("fmt"); p != nil && p.Type("wrapError") != nil {
+				l := newLoc(StructV{[]Value{msg, wrapped}})
+				return IfaceV{t: types.NewPointer(p.Type("wrapError").Type()), v: PtrV{loc: l}}
+			}
+		}
+		return in.newErrorString("<formatted error>")
 	}
-	in.stubs["fmt.Errorf"] = opaqueErr
-	in.stubs["errors.New"] = opaqueErr
+	in.stubs["errors.Is"] = func(in *Interp, fn *ssa.Function, args []Value) Value {
+		err, target := args[0].(IfaceV), args[1].(IfaceV)
+		for depth := 0; depth < 16; depth++ {
+			if err.t == nil {
+				return Bool(target.t == nil)
+			}
+			if target.t != nil && types.Identical(err.t, target.t) {
+				eq := in.valEq(err.v, target.v)
+				if in.branch(eq) {
+					return Bool(true)
+				}
+			}
+			u := in.hasMethod(err.t, "Unwrap")
+			if u == nil || u.Signature.Results().Len() != 1 {
+				return Bool(false)
+			}
+			if _, isI := u.Signature.Results().At(0).Type().Underlying().(*types.Interface); !isI {
+				return Bool(false)
+			}
+			err = in.call(u, []Value{err.v}, nil).(IfaceV)
+		}
+		in.abort("limit", "errors.Is chain depth")
+		return nil
+	}
 	in.stubs["time.Now"] = func(in *Interp, fn *ssa.Function, args []Value) Value { return zero(fn.Signature.Results().At(0).Type()) }
 	in.stubs["math.Float64bits"] = func(in *Interp, fn *ssa.Function, args []Value) Value { return args[0] }
 	in.stubs["math.Float64frombits"] = func(in *Interp, fn *ssa.Function, args []Value) Value { return args[0] }
@@ -391,7 +451,7 @@ func (in *Interp) installStubs() {
 	in.stubs["math.Float32frombits"] = func(in *Interp, fn *ssa.Function, args []Value) Value { return args[0] }
 	in.stubs["internal/bytealg.Compare"] = func(in *Interp, fn *ssa.Function, args []Value) Value {
 		a, b := sliceBytes(args[0].(SliceV)), sliceBytes(args[1].(SliceV))
-		return BVi(64, int64(in.strCmp(StrV{a}, StrV{b})))
+		return cmpBytesTerm(a, b)
 	}
 	in.stubs["internal/bytealg.Equal"] = func(in *Interp, fn *ssa.Function, args []Value) Value {
 		a, b := sliceBytes(args[0].(SliceV)), sliceBytes(args[1].(SliceV))
@@ -458,6 +518,26 @@ func (in *Interp) hashOf(s string) *Term {
 		in.hashSeen = append(in.hashSeen, name)
 	}
 	return t
+}
+
+// newErrorString builds an *errors.errorString value.
+func (in *Interp) newErrorString(msg string) Value {
+	p := in.prog.ImportedPackage("errors")
+	if p == nil || p.Type("errorString") == nil {
+		in.abort("unsupported", "errors.errorString type not found")
+	}
+	l := newLoc(StructV{[]Value{strConst(msg)}})
+	return IfaceV{t: types.NewPointer(p.Type("errorString").Type()), v: PtrV{loc: l}}
+}
+
+func (in *Interp) hasMethod(t types.Type, name string) *ssa.Function {
+	ms := in.prog.MethodSets.MethodSet(t)
+	for i := 0; i < ms.Len(); i++ {
+		if ms.At(i).Obj().Name() == name {
+			return in.prog.MethodValue(ms.At(i))
+		}
+	}
+	return nil
 }
 
 func hexName(s string) string {
